@@ -72,8 +72,9 @@ def plan(tier, seed):
 def gen_scalar(rnd):
     if rnd.random() < 0.1:
         # plain data that is a sequence but neither a list nor a str: handed on as it is
-        return rnd.choice([b"\x00bin", b"", (1, 2), (), range(3), bytearray(b"ab"), ("x", {"k": 1})])
-    return rnd.choice([0, 1, -7, 2.5, 0.0, True, False, None, "", "text", "__type__", "a.b", "é🚀", 10**12])
+        return rnd.choice([b"\x00bin", b"", (1, 2), (), range(3), bytearray(b"ab"), ("x", {"k": 1}), ("pipeline", 1), b"pipeline"])
+    return rnd.choice([0, 1, -7, 2.5, 0.0, True, False, None, "", "text", "__type__", "a.b", "é🚀", 10**12,
+                       "pipeline", "main-pipeline.yaml", "__args__"])
 
 
 def gen_tree(rnd, depth, density, counter, max_depth):
@@ -215,7 +216,9 @@ def gen_pipeline(rnd):
     if n >= 2 and rnd.random() < 0.2:
         # an element that is an object already (as a !Tag leaves it) and cannot be put in front of its successor
         fail_at, depth = rnd.randrange(n - 1), rnd.choice(["binder_TypeError", "binder_KeyError"])
-    return {"pipeline": n, "fail_at": fail_at, "depth": depth, "fail_type": rnd.choice(["vfact.boom", "vfact.nosuch", "vfact_nosuch.thing"]),
+    # plain settings of the elements, some of them spelled like the translator's own vocabulary
+    notes = [rnd.choice([None, None, "pipeline", "main-pipeline.yaml", ["pipeline", "site"], ("pipeline",), b"pipeline", "__type__", {"k": "pipeline"}]) for _ in range(n)]
+    return {"notes": notes, "pipeline": n, "fail_at": fail_at, "depth": depth, "fail_type": rnd.choice(["vfact.boom", "vfact.nosuch", "vfact_nosuch.thing"]),
             "where": rnd.choice(["", "cfg", ".sites[1]"]), "tree": {"pipeline": n, "fail_at": fail_at, "depth": depth}, "fail": None, "purge": False, "share": None, "extra": None}
 
 
@@ -225,6 +228,10 @@ def run_pipeline(case, result):
 
     n, fail_at = case["pipeline"], case["fail_at"]
     elements = [{"__type__": "vfact.make", "nid": i, "label": "e%d" % i} for i in range(n)]
+    for element, note in zip(elements, case.get("notes", [])):
+        if note is not None:
+            element["note"] = note
+            result.count("pipeline_elements_with_settings_spelled_like_the_translators_vocabulary")
     want_where = None
     if fail_at is not None and case["depth"].startswith("binder_"):
         class Binder:
@@ -282,6 +289,9 @@ def run_pipeline(case, result):
         if entry is None:
             continue
         target = entry["kwargs"].get("target")
+        note = case.get("notes", [None] * n)[i]
+        if note is not None and (entry["kwargs"].get("note") != note or type(entry["kwargs"].get("note")) is not type(note)):
+            problems.append(("element %d was configured with note=%r and received %r" % (i, note, entry["kwargs"].get("note")), None))
         if i == n - 1 and "target" in entry["kwargs"]:
             problems.append(("the last element was given a target", None))
         if i < n - 1 and (i + 1 not in by_nid or target is not by_nid[i + 1]["product"]):
